@@ -4,6 +4,7 @@ import (
 	"fmt"
 	"math"
 	"math/big"
+	"os"
 	"sort"
 	"strconv"
 	"strings"
@@ -272,10 +273,20 @@ func (C19) Oracle(line, goOut string) string {
 		if strings.HasPrefix(goOut, "outputs-differ") {
 			return "the same extract gives different files under different thread/overfetch settings: some needed range was not transferred (or transferred to the wrong place): " + goOut
 		}
-		cfgs := c19Cfgs
+		cfgs := append([]extractCfg{}, c19Cfgs...)
+		if len(t) <= 300 {
+			// (not for the strip sources: the failing origin delays every other tile request)
+			cfgs = append(cfgs, extractCfg{threads: 3, http: true, fail500: true}, extractCfg{threads: 4, of: 0.05, http: true, fail500: true})
+		}
 		if len(t) > 300 {
 			// many separate ranges: repeat the unmerged multi-thread configurations (schedule-dependent duplicates)
-			cfgs = append(append([]extractCfg{}, c19Cfgs...), extractCfg{threads: 8, http: true}, extractCfg{threads: 4, http: true}, extractCfg{threads: 8, http: true})
+			cfgs = append(cfgs, extractCfg{threads: 8, http: true}, extractCfg{threads: 4, http: true}, extractCfg{threads: 8, http: true})
+		}
+		if (lineHash(line)%5 == 0 || len(t) > 300) && os.Getenv("VERIF_CLI") != "" {
+			// the budget the user states on the command line is the budget that applies: explicit 0, the defaults
+			// (4 threads, 5 %), an explicit ratio
+			cfgs = append(append([]extractCfg{}, cfgs...), extractCfg{cli: true, threads: 4, of: 0, http: true},
+				extractCfg{cli: true, threads: 4, of: 0.05, http: true}, extractCfg{cli: true, threads: 2, of: 0.375, http: true})
 		}
 		runs, src, bad := runExtractConfigs(t, cfgs)
 		if bad != "" {
@@ -283,6 +294,20 @@ func (C19) Oracle(line, goOut string) string {
 		}
 		sa := readWholeArchive(src)
 		for _, run := range runs {
+			if run.failed {
+				// an extract that fails is still an extract: what it asked the origin for obeys the same rule —
+				// no tile-data range is requested a second time (by another worker, or as a retry)
+				seen := map[recordedRange]bool{}
+				for _, rq := range run.recs {
+					if rq.lo >= int64(sa.h.TileDataOffset) && rq.hi >= rq.lo {
+						if seen[rq] {
+							return fmt.Sprintf("threads=%d, one tile-data request answered 500: bytes=%d-%d requested again although the extract fails", run.cfg.threads, rq.lo, rq.hi)
+						}
+						seen[rq] = true
+					}
+				}
+				continue
+			}
 			ra := readWholeArchive(run.out)
 			if ra.err != "" {
 				return "output unreadable: " + ra.err
